@@ -3,7 +3,7 @@ use vp::engine::{run_property, RunArgs, Tier};
 use vp::{gag, props, sut};
 
 fn usage() -> ! {
-    eprintln!("usage: vp <Cxx> [--tier quick|thorough] [--replay FILE] [--replay-case-bytes FILE] [--emit-corpus DIR N] [--seed N] [--workers N] [--cases N]");
+    eprintln!("usage: vp <Cxx> [--tier quick|thorough] [--replay FILE] [--shrink-case FILE] [--emit-corpus DIR N] [--seed N] [--workers N] [--cases N]");
     std::process::exit(2)
 }
 
@@ -23,7 +23,7 @@ fn main() {
         .map(|v| v as u64)
         .unwrap_or(1);
     let mut replay = None;
-    let mut replay_case_bytes = None;
+    let mut shrink_case = None;
     let mut emit_corpus = None;
     let mut workers = std::thread::available_parallelism().map(|n| n.get()).unwrap_or(8).min(16);
     let mut cases_override = None;
@@ -42,9 +42,9 @@ fn main() {
                 i += 1;
                 replay = Some(argv.get(i).cloned().unwrap_or_else(|| usage()));
             }
-            "--replay-case-bytes" => {
+            "--shrink-case" => {
                 i += 1;
-                replay_case_bytes = Some(argv.get(i).cloned().unwrap_or_else(|| usage()));
+                shrink_case = Some(argv.get(i).cloned().unwrap_or_else(|| usage()));
             }
             "--emit-corpus" => {
                 let dir = argv.get(i + 1).cloned().unwrap_or_else(|| usage());
@@ -74,7 +74,7 @@ fn main() {
         tier,
         seed,
         replay,
-        replay_case_bytes,
+        shrink_case,
         emit_corpus,
         workers,
         cases_override,
